@@ -4,7 +4,7 @@ import SciVerif.Tie.Pins
 /-! Tie A obligations for C16 on the current source. -/
 namespace SciVerif.Tie
 -- functions the model relies on without an obligation of its own naming them (pinned by bin/mkpins):
--- PIN-ALSO: Scipipe.InPort_Ready Scipipe.OutPort_Ready Scipipe.InParamPort_Ready Scipipe.OutParamPort_Ready Scipipe.InPort_Disconnect Scipipe.OutPort_Disconnect Scipipe.OutParamPort_Disconnect Scipipe.InPort_SetReady Scipipe.OutPort_SetReady Scipipe.InParamPort_SetReady Scipipe.OutParamPort_SetReady Scipipe.Sink_From Scipipe.Sink_FromParam Scipipe.Workflow_AddProc Scipipe.Workflow_Proc Scipipe.InParamPort_FromStr Scipipe.BaseProcess_InitInPort Scipipe.BaseProcess_InitOutPort Scipipe.BaseProcess_InitInParamPort Scipipe.BaseProcess_InitOutParamPort Scipipe.Process_In Scipipe.Process_Out Scipipe.Process_InParam Scipipe.Process_OutParam Scipipe.NewProc Scipipe.Workflow_NewProc Scipipe.NewBaseProcess Scipipe.BaseProcess_InPort Scipipe.BaseProcess_OutPort Scipipe.BaseProcess_InParamPort Scipipe.BaseProcess_OutParamPort Scipipe.BaseProcess_InPorts Scipipe.BaseProcess_OutPorts Scipipe.BaseProcess_InParamPorts Scipipe.BaseProcess_OutParamPorts Scipipe.InPort_SetProcess Scipipe.OutPort_SetProcess Scipipe.InPort_Process Scipipe.OutPort_Process Scipipe.OutParamPort_Process Scipipe.InParamPort_Process Scipipe.Workflow_AddProcs Scipipe.Workflow_Procs Scipipe.BaseProcess_DeleteInPort Scipipe.BaseProcess_DeleteOutPort Scipipe.BaseProcess_DeleteInParamPort Scipipe.BaseProcess_DeleteOutParamPort Scipipe.OutParamPort_removeRemotePort Scipipe.NewSink Scipipe.Workflow_SetSink Scipipe.Workflow_Sink Scipipe.Workflow_Name Scipipe.NewWorkflowCustomLogFile
+-- PIN-ALSO: Scipipe.OutPort_To Scipipe.OutParamPort_To Scipipe.InPort_From Scipipe.InParamPort_From Scipipe.InPort_AddRemotePort Scipipe.OutPort_AddRemotePort Scipipe.InParamPort_AddRemotePort Scipipe.OutParamPort_AddRemotePort Scipipe.InPort_Ready Scipipe.OutPort_Ready Scipipe.InParamPort_Ready Scipipe.OutParamPort_Ready Scipipe.InPort_Disconnect Scipipe.OutPort_Disconnect Scipipe.OutParamPort_Disconnect Scipipe.InPort_SetReady Scipipe.OutPort_SetReady Scipipe.InParamPort_SetReady Scipipe.OutParamPort_SetReady Scipipe.Sink_From Scipipe.Sink_FromParam Scipipe.Workflow_AddProc Scipipe.Workflow_Proc Scipipe.InParamPort_FromStr Scipipe.BaseProcess_InitInPort Scipipe.BaseProcess_InitOutPort Scipipe.BaseProcess_InitInParamPort Scipipe.BaseProcess_InitOutParamPort Scipipe.Process_In Scipipe.Process_Out Scipipe.Process_InParam Scipipe.Process_OutParam Scipipe.NewProc Scipipe.Workflow_NewProc Scipipe.NewBaseProcess Scipipe.BaseProcess_InPort Scipipe.BaseProcess_OutPort Scipipe.BaseProcess_InParamPort Scipipe.BaseProcess_OutParamPort Scipipe.BaseProcess_InPorts Scipipe.BaseProcess_OutPorts Scipipe.BaseProcess_InParamPorts Scipipe.BaseProcess_OutParamPorts Scipipe.InPort_SetProcess Scipipe.OutPort_SetProcess Scipipe.InPort_Process Scipipe.OutPort_Process Scipipe.OutParamPort_Process Scipipe.InParamPort_Process Scipipe.Workflow_AddProcs Scipipe.Workflow_Procs Scipipe.BaseProcess_DeleteInPort Scipipe.BaseProcess_DeleteOutPort Scipipe.BaseProcess_DeleteInParamPort Scipipe.BaseProcess_DeleteOutParamPort Scipipe.OutParamPort_removeRemotePort Scipipe.NewSink Scipipe.Workflow_SetSink Scipipe.Workflow_Sink Scipipe.Workflow_Name Scipipe.NewWorkflowCustomLogFile
 open SciVerif.Generated SciVerif.Graph
 
 theorem generated_run_sem_good : good runSem := by decide
@@ -69,6 +69,7 @@ theorem c16_on_source (wf : Wf) (hac : acyclic wf) (ts : List Nat) (hts : ∀ t 
 
 
 
+
 -- BEGIN PINS (written by bin/mkpins; do not edit by hand)
 /-- the Go functions this property's model and obligations were written against have exactly the
 pinned skeletons (SHA-256 prefix of the atom list) -/
@@ -92,11 +93,15 @@ theorem pinned_skeletons_c16 :
      ("Scipipe.BaseProcess_OutPort", "c8e19a354c1d12ce"),
      ("Scipipe.BaseProcess_OutPorts", "c28508c01ef2c5b0"),
      ("Scipipe.BaseProcess_Ready", "71e6e586b2c2ee4c"),
+     ("Scipipe.InParamPort_AddRemotePort", "3305ddf163d24713"),
+     ("Scipipe.InParamPort_From", "91dcfa2a5059be8c"),
      ("Scipipe.InParamPort_FromStr", "82f932a5d19fe28f"),
      ("Scipipe.InParamPort_Process", "9128e2db1c92bb3d"),
      ("Scipipe.InParamPort_Ready", "338b778c4d30bafe"),
      ("Scipipe.InParamPort_SetReady", "1d81cf7a998ea142"),
+     ("Scipipe.InPort_AddRemotePort", "2b23c2eefc8a18f5"),
      ("Scipipe.InPort_Disconnect", "2d058fead9c77bdd"),
+     ("Scipipe.InPort_From", "39357be56d46a631"),
      ("Scipipe.InPort_Process", "5542a8a79e33c127"),
      ("Scipipe.InPort_Ready", "e7c4d0f1d8ce491c"),
      ("Scipipe.InPort_SetProcess", "f6f6fdb502d7548a"),
@@ -105,16 +110,20 @@ theorem pinned_skeletons_c16 :
      ("Scipipe.NewProc", "87c3cac25a30f9dc"),
      ("Scipipe.NewSink", "a492528b88e6e985"),
      ("Scipipe.NewWorkflowCustomLogFile", "973414122f728bb6"),
+     ("Scipipe.OutParamPort_AddRemotePort", "d1ae040a8ec1308b"),
      ("Scipipe.OutParamPort_Disconnect", "1a71a40de11b44f8"),
      ("Scipipe.OutParamPort_Process", "b038149df3b6386e"),
      ("Scipipe.OutParamPort_Ready", "4e1487fcb30ac148"),
      ("Scipipe.OutParamPort_SetReady", "ac7757c9aa44795d"),
+     ("Scipipe.OutParamPort_To", "62d0c49416911f20"),
      ("Scipipe.OutParamPort_removeRemotePort", "c4aa2de45b72f662"),
+     ("Scipipe.OutPort_AddRemotePort", "711a5e501451ebce"),
      ("Scipipe.OutPort_Disconnect", "2d058fead9c77bdd"),
      ("Scipipe.OutPort_Process", "5542a8a79e33c127"),
      ("Scipipe.OutPort_Ready", "e7c4d0f1d8ce491c"),
      ("Scipipe.OutPort_SetProcess", "f6f6fdb502d7548a"),
      ("Scipipe.OutPort_SetReady", "28ab5e17a572a39d"),
+     ("Scipipe.OutPort_To", "39357be56d46a631"),
      ("Scipipe.Process_In", "5c55db4a17c5e657"),
      ("Scipipe.Process_InParam", "c8e48924f704b354"),
      ("Scipipe.Process_Out", "a8336ddcad83e773"),
